@@ -286,7 +286,7 @@ func (h *HttpServer) handleStreamInit(w http.ResponseWriter, r *http.Request) {
 		// The producer's first turn folds into this /init request, so the init
 		// request's custom metadata is what the pipe transports would have
 		// delivered on the first tick batch.
-		finished, err := h.runProduceLoop(ctx, writer, outputSchema, state.(ProducerState), info, stats, auth, transportMeta, callCtx.Cookies, callCtx.stickySink, requestMetadata(req))
+		finished, err := h.runProduceLoop(ctx, writer, outputSchema, state.(ProducerState), info, stats, auth, transportMeta, callCtx.Cookies, callCtx.stickySink, requestMetadata(req), buf.Len)
 		handlerErr = err
 		if err == nil && !finished {
 			// Batch limit reached — append continuation token
@@ -643,7 +643,7 @@ func (h *HttpServer) handleProducerContinuation(ctx context.Context, w http.Resp
 	// framework's own transport keys are stripped first — the pipe transports
 	// never put them on a tick, and the stream-state value is a sealed cursor
 	// token that must not surface to user code.
-	finished, err := h.runProduceLoop(ctx, writer, schema, state, info, stats, auth, transportMeta, cookies, sink, stripFrameworkTickMetadata(requestMeta))
+	finished, err := h.runProduceLoop(ctx, writer, schema, state, info, stats, auth, transportMeta, cookies, sink, stripFrameworkTickMetadata(requestMeta), buf.Len)
 	if err == nil && !finished {
 		// Batch limit reached — append continuation token
 		token, tokenErr := h.packCursorTokenFor(info.Name, callID, state, auth)
@@ -982,7 +982,7 @@ func stripFrameworkTickMetadata(meta arrow.Metadata) arrow.Metadata {
 // batches, the later ticks in that turn legitimately see empty metadata — the
 // client has no opportunity to update mid-turn.
 func (h *HttpServer) runProduceLoop(ctx context.Context, writer *ipc.Writer, schema *arrow.Schema,
-	state ProducerState, info *methodInfo, stats *CallStatistics, auth *AuthContext, transportMeta map[string]string, cookies map[string]string, sink *stickySink, firstTickMeta arrow.Metadata) (bool, error) {
+	state ProducerState, info *methodInfo, stats *CallStatistics, auth *AuthContext, transportMeta map[string]string, cookies map[string]string, sink *stickySink, firstTickMeta arrow.Metadata, bodyLen func() int) (bool, error) {
 
 	dataBatches := 0
 	firstTick := true
@@ -1122,6 +1122,12 @@ func (h *HttpServer) runProduceLoop(ctx context.Context, writer *ipc.Writer, sch
 
 		// Check batch limit
 		if h.producerBatchLimit > 0 && dataBatches >= h.producerBatchLimit {
+			return false, nil
+		}
+		// max_response_bytes is soft for producers: once the body has
+		// reached the cap, stop and let the continuation token carry the
+		// rest, so a response overshoots by at most the batch that crossed it.
+		if h.maxResponseBytes > 0 && bodyLen != nil && int64(bodyLen()) >= h.maxResponseBytes {
 			return false, nil
 		}
 	}
